@@ -270,7 +270,11 @@ def cmd_campaign(tier: str, verif_seed: int, workers: int) -> int:
         if reproduced:
             with open(base + '.original.json', 'w') as f:
                 json.dump({'version': 1, 'property': PROPERTY, 'spec': spec, 'violation': first['violation'], 'digest': first['digest'], 'tree': tree}, f, indent=1, default=str)
-            small, res, used = shrink.minimise(spec, clause, lambda specs: campaign.run_fresh(specs, parallel=workers), budget=400 if tier != 'smoke' else 200, batch=workers)
+            screener = campaign.Screener(workers)
+            try:
+                small, res, used = shrink.minimise(spec, clause, lambda specs: campaign.run_fresh(specs, parallel=workers), budget=400 if tier != 'smoke' else 200, batch=workers, screen=screener)
+            finally:
+                screener.close()
             if res is None:
                 small, res = spec, first
             minimised = {'statements_before': program.count_statements(spec), 'statements_after': program.count_statements(small), 'executions_each_in_a_new_process': used}
